@@ -1496,6 +1496,18 @@ func siFractionNotIntegral(L string) bool {
 	return !v.IsInt()
 }
 
+// stripSurrogatePairs removes every well-formed escaped surrogate pair (a high
+// half D800-DBFF directly followed by a low half DC00-DFFF, both introduced by
+// a backslash and exactly h hashes) from L. What is left of the surrogate
+// escapes are the unmatched halves: only those are a legitimate S-P
+// difference; a well-formed pair must be accepted by all three components.
+func stripSurrogatePairs(L string, h int) string {
+	in := `\\` + strings.Repeat("#", h)
+	half := func(lo string) string { return in + `(?:u|U0000)[dD]` + lo + `[0-9a-fA-F]{2}` }
+	re := regexp.MustCompile(half(`[89abAB]`) + half(`[c-fC-F]`))
+	return re.ReplaceAllString(L, "")
+}
+
 type exclClass struct {
 	name     string
 	known    bool
@@ -1514,7 +1526,9 @@ var exclClasses = []exclClass{
 		name:     "surrogate-escape",
 		verdicts: []string{"S-P"},
 		why:      `\uD800-\uDFFF escapes: the scanner only checks x <= unicode.MaxRune (TODO in scanEscape), literal.Unquote pairs surrogates and rejects unmatched halves (value-level rule; spec.md lists "\uD800" as illegal)`,
-		pred:     func(L string, num bool, h int) bool { return !num && reSurrogate.MatchString(L) },
+		pred: func(L string, num bool, h int) bool {
+			return !num && reSurrogate.MatchString(stripSurrogatePairs(L, h))
+		},
 	},
 	{
 		name:     "bom-inside-literal",
@@ -2300,7 +2314,12 @@ var canonicalLits = []string{
 	"##\"\"\"#\n\"\"\"##",    // scanner-multiline-opener-swallows-hashes
 	"0_1e1",                  // scanner-rejects-zero-underscore-float
 	"\"\"\"\r\n\tfoo\r\n\r\n\tbar\r\n\t\"\"\"", // scanner-cr-in-line-leading-whitespace
-	`"\uD800"`,             // surrogate-escape (excluded class)
+	`"\uD800"`,       // surrogate-escape (excluded class)
+	`"\ud800\udc00"`, // well-formed surrogate pairs at the corners of both ranges: all three must accept
+	`"\ud800\udfff"`,
+	`"\udbff\udc00"`,
+	`'\uDBFF\uDFFF'`,
+	`#"\#ud83d\#ude00"#`,
 	"\"\"\"\n\u00a0\"\"\"", // unquote-unicode-space-closing-indent (excluded class)
 }
 
